@@ -13,6 +13,12 @@ Proof.
   destruct l; simpl; auto. now rewrite firstn_nil.
 Qed.
 
+Lemma skipn_skipn' : forall {A} (a b : nat) (l : list A), skipn a (skipn b l) = skipn (b + a) l.
+Proof.
+  intros A a b. revert a. induction b; intros; simpl; auto.
+  destruct l; simpl; auto. now rewrite skipn_nil.
+Qed.
+
 Lemma window_some : forall {A} (l : list A) off len w,
   window l off len = Some w <-> off + len <= length l /\ w = firstn len (skipn off l).
 Proof.
@@ -33,7 +39,7 @@ Proof.
   intros. pose proof (window_length _ _ _ _ H) as HL.
   apply window_some in H as [H ->]. repeat split; auto.
   - rewrite <- (firstn_skipn off l) at 1. f_equal.
-    rewrite <- (firstn_skipn len (skipn off l)) at 1. f_equal. now rewrite skipn_skipn, Nat.add_comm.
+    rewrite <- (firstn_skipn len (skipn off l)) at 1. f_equal. now rewrite skipn_skipn'.
   - rewrite firstn_length. lia.
 Qed.
 
